@@ -231,12 +231,33 @@ class Gen:
             elif x < 0.7 and idepth < 2:
                 out.append(self.inline(cdir, crel, fdepth, idepth))
             elif x < 0.8 and not incfg:
-                out.append(["cfgif", self.items(cdir, crel, fdepth, idepth, True, 1, 3)])
+                out.append(["cfgif", self.same_name_branches(self.items(cdir, crel, fdepth, idepth, True, 1, 3), cdir, fdepth)])
             elif x < 0.86 and not incfg:
-                out.append(["cfgmatch", self.items(cdir, crel, fdepth, idepth, True, 1, 3)])
+                out.append(["cfgmatch", self.same_name_branches(self.items(cdir, crel, fdepth, idepth, True, 1, 3), cdir, fdepth)])
             else:
                 out.append(["other"])
         return out
+
+    def same_name_branches(self, body, cdir, fdepth):
+        """the usual `cfg_if!` pattern: the SAME module name declared in several branches, each with its own #[path] file
+        (sys/unix.rs, sys/windows.rs, ..): every one of these files is reachable"""
+        r = self.r
+        decls = [x for x in body if x[0] == "decl" and not x[2].get("cfg")]
+        if not decls or r.random() < 0.5:
+            return body
+        n = r.choice(decls)[1]
+        for _ in range(r.randint(1, 2)):
+            k = r.randint(10, 14)
+            q = r.choice([[R(k)], [D(k), R(k)]])
+            fid = self.new_file(list(cdir) + q)
+            if fid is None:
+                continue
+            self.child(fid, (list(cdir) + q)[:-1], None, fdepth + 1)
+            self.nondefault += 1
+            a = A()
+            a["path"] = q
+            body = body + [["decl", n, a]]
+        return body
 
     def decoys(self):
         r = self.r
@@ -408,7 +429,10 @@ def file_text(t, fid):
     cnt = [0]
     s = ""
     if gen:
-        s += "// @generated\n"
+        # every spelling of the marker: it is a substring test on the first lines, wherever it stands
+        forms = ["// @generated\n", "//@generated\n", "/* @generated */\n", "/*\n * This file is @generated by a tool.\n */\n", "//! @generated\n",
+                 "// Copyright\n// @generated SignedSource<<abc>>\n", "#![doc = \"@generated\"]\n", "/** @generated */\n"]
+        s += forms[fid % len(forms)]
     if sk:
         s += "#![rustfmt::skip]\n"
     if asts[fid] is None:
